@@ -123,7 +123,9 @@ def cache_roles(F):
     fs = struct_fields(F, path)
     svd = [f["name"] for f in fs if f.get("adt") == "nalgebra::SVD"]
     mats = [f["name"] for f in fs if f.get("adt") == "nalgebra::Matrix"]
-    if len(svd) != 1 or len(mats) != 2:
+    if len(svd) != 1 or len(mats) < 2:
+        # (further matrix fields may be kept alongside — which two are the coefficients and the residuals is decided by
+        # use: resolve_cache_roles_by_use)
         raise AnchorMissing("cache struct shape: svd=%s matrices=%s" % (svd, mats))
     return {"path": path, "svd": svd[0], "mats": mats, "all": [f["name"] for f in fs]}
 
